@@ -239,9 +239,9 @@ PROPS["C12"] = dict(
 
 PROPS["C16"] = dict(
     level="proof",
-    verus=["c16_labels", "c16_resources", "c16_store", "c16_engine", "c12_domain", "c11_cosmetic_parse", "c11_locations"],
-    labels=["C16.", "C18.resources.", "C12.domain.", "C17.cosmetic.parse.", "C18.cosmetic.parse."],
-    witness=["c16_generic_parse.rs"],
+    verus=["c16_labels", "c16_resources", "c16_store", "c16_engine", "c12_domain", "c11_cosmetic_parse", "c11_locations", "c12_offsets"],
+    labels=["C16.", "C18.resources.", "C12.domain.", "C17.cosmetic.parse.", "C18.cosmetic.parse.", "C12.offsets.", "C12.host.", "C12.scheme."],
+    witness=["c16_generic_parse.rs", "c16_scoping.rs"],
     kani=[],
     trusted=["memchr/memrchr (shims)", "seahash uninterpreted",
              "CosmeticFilter::parse is under contract in unit c11_cosmetic_parse for its frame (markers, +js form, generic restrictions, double negation) with parse_after_sharp_nonscript and validate_css_selector uninterpreted; the location list is under contract in unit c11_locations: the per-entry closure of locations_before_sharp (R7 lift of the closure body: kind and text of every entry) and parse_before_sharp (each of the four lists holds the hashes of the entries of its kind; idna and seahash uninterpreted, sort = a permutation), joined by the R5 materialisation `entries = split(',').filter_map(closure)` which is trusted; add_generic_filter is under contract in unit c17_generic (uninterpreted relation here); the generichide lookup for the page (Engine::url_cosmetic_resources, Blocker::check_generic_hide) is under contract in unit c16_engine with Request::new, NetworkFilterList::check and hostname_cosmetic_resources entering by their contracts",
@@ -259,7 +259,7 @@ PROPS["C16"] = dict(
                "procedural/action filters minus their exceptions, every unhidden selector as exceptions, and the scriptlet injections requested under some lookup hash minus identical exceptions (none under a blanket exception); "
                "that store_rule files a rule under every hostname and entity hash in the bin its kind names (the exception bin for `#@#` rules) and under every negated location in the opposite bin, and nothing else; "
                "that add_filter sends unscoped rules to the generic stores, scoped rules to the scoped database, and a rule with only negated locations to both (as its hidden generic rule); that CosmeticFilter::parse never yields an exception with negated locations, a scriptlet rule that is not one plain argument text without action, or a rule without locations that is an exception, a scriptlet rule or carries an action; that each entry of the location list gets the kind and text its `~` / `.*` spelling names and that the four hash lists of a rule hold exactly the hashes of the entries of their kind",
-    level_note="the registrable-domain lookup (addr crate / PSL), CSS validation and the split(',') that feeds the per-entry closure of the location list are not under contract",
+    level_note="the registrable-domain lookup (addr crate / PSL), CSS validation and the split(',') that feeds the per-entry closure of the location list are not under contract; one known finding (witness input): a negation-only rule with an action, procedural operators or a scriptlet applies on no host",
     design_ref="DESIGN.md section 4, C16",
 )
 
@@ -306,7 +306,7 @@ PROPS["C11"] = dict(
     verus=["c11_lists", "c11_pattern_block", "c03_option_text", "c11_cosmetic_parse", "c11_locations"],
     labels=["C11.", "C03.option_text.safety"],
     kani=[],
-    witness=["c11_hosts.rs", "c17_keys.rs"],
+    witness=["c11_hosts.rs", "c17_keys.rs", "c11_junk.rs"],
     trusted=["NetworkFilter::parse: the pattern / anchor / hostname extraction block (every string slice of it) and the option-name table are under contract (units c11_pattern_block, c03_option_text, c03_apply_options, c03_parse_mask); the hostname normalisation and parse_hosts_style are under contract in c11_pattern_block with to_lowercase, trim_start_matches(\"www.\"), idna and the INVALID_CHARS regex uninterpreted; CosmeticFilter::parse (unit c11_cosmetic_parse) is under contract for its own slices (the two '#', the marker characters, the `+js(` ... `)` window) with validate_css_selector (assumed: an accepted selector has at least one operator) and parse_scriptlet_args (unit c18_args) entering by contract; the location list (closure of locations_before_sharp, parse_before_sharp) is under contract in unit c11_locations; of parse_after_sharp_nonscript (labelled block + table of function pointers: outside the Verus subset) only its two slice statements are under contract (R7 single-statement lifts), under the branch conditions they sit behind (token found at i, text ends with ')') and the shape of the three action tokens, which IS checked on the function's own constants (R2: byte-string literals spelled as byte arrays)",
              "str::trim, split_whitespace, lines (R5/R6 shims)", "memchr / memrchr (shims)", "UTF-8 facts: an ASCII byte has a character boundary on both sides; both ends of a string are boundaries; ASCII text is encoded byte for character",
              "per-line error isolation in parse_filters_with_metadata (map/filter_map closure pipeline) is not under contract"],
@@ -320,8 +320,8 @@ PROPS["C11"] = dict(
 
 PROPS["C15"] = dict(
     level="proof",
-    verus=["c15_csp", "c01_lookup", "c05_optimizer", "c03_apply_options", "c03_option_text", "c01_index"],
-    labels=["C15.", "C01.check_all.", "C05.select.", "C03.apply_options.", "C03.option_text.", "C01.index."] + MASK,
+    verus=["c15_csp", "c01_lookup", "c05_optimizer", "c03_apply_options", "c03_option_text", "c01_index", "c04_partition", "c12_request"],
+    labels=["C15.", "C01.check_all.", "C05.select.", "C03.apply_options.", "C03.option_text.", "C01.index.", "C06.add_filter.", "C04.new.csp", "C12.preparsed.", "C12.new."] + MASK,
     kani=[],
     witness=["c15_csp.rs"],
     trusted=["R6: the `difference` + comma-join tail is lifted: its contract is 'None iff nothing remains, else the directive set of the string is enabled minus disabled'",
